@@ -2,12 +2,13 @@ package main
 
 import (
 	"fmt"
-	"os"
-	"runtime"
 	"go/types"
+	"os"
 	"regexp"
+	"runtime"
 	"sort"
 	"strings"
+	"sync"
 )
 
 // T is an SMT term with its SMT sort and (when known) its Go type.
@@ -280,15 +281,19 @@ func (e *Enc) zero(t types.Type) string {
 	return "0"
 }
 
+var idMu sync.Mutex
+
 func (e *Enc) strID(s string) string {
 	if s == "" {
 		return "0"
 	}
+	idMu.Lock()
 	id, ok := e.strIDs[s]
 	if !ok {
 		id = 1000 + len(e.strIDs)
 		e.strIDs[s] = id
 	}
+	idMu.Unlock()
 	n := fmt.Sprintf("%d", id)
 	e.addDecl("strlen@"+n, fmt.Sprintf("(assert (= (strlen %s) %d))", n, len(s)))
 	return n
@@ -296,6 +301,8 @@ func (e *Enc) strID(s string) string {
 
 func (e *Enc) typeID(t types.Type) int {
 	k := types.TypeString(t, nil)
+	idMu.Lock()
+	defer idMu.Unlock()
 	id, ok := e.typeIDs[k]
 	if !ok {
 		id = 1 + len(e.typeIDs)
@@ -303,6 +310,17 @@ func (e *Enc) typeID(t types.Type) int {
 		e.typeByID[id] = t
 	}
 	return id
+}
+
+// knownTypes returns a snapshot of the type-tag table.
+func (e *Enc) knownTypes() map[int]types.Type {
+	idMu.Lock()
+	defer idMu.Unlock()
+	m := make(map[int]types.Type, len(e.typeByID))
+	for k, v := range e.typeByID {
+		m[k] = v
+	}
+	return m
 }
 
 // ---------------------------------------------------------------- state
